@@ -402,6 +402,12 @@ func Run(t *testing.T, p *Proc, spec *Spec) *Outcome {
 	for _, site := range spec.Plan.Sites {
 		s.siteOn[site] = true
 	}
+	// Structural sites always park: they sit right after the internal channel operations by
+	// which one library goroutine wakes another, so that the waker and the woken never run
+	// at the same time (one runner) whatever GOMAXPROCS is.
+	for _, site := range []string{"cursor.received", "report.handoff.after", "wait.keysonce.after", "readkey.keysonce.received", "resize.woken"} {
+		s.siteOn[site] = true
+	}
 	for _, d := range spec.Plan.Disturb {
 		if !strings.HasPrefix(d.Site, "read.") && d.Site != "inputwait" && d.Site != "argwait" {
 			s.siteOn[d.Site] = true
@@ -716,7 +722,11 @@ func (s *Session) loop() {
 			return
 		}
 
-		s.fireDisturbances(pend)
+		if s.fireDisturbances(pend) {
+			// a disturbance made another task runnable (resize watcher woken, Printf caller
+			// started): let it run to its next simulator point before anything else is released
+			continue
+		}
 
 		// ---- enabled events, canonical order first
 		var evs []event
@@ -1151,7 +1161,7 @@ func (s *Session) typeSome() {
 	s.event("type %q (tok=%d off=%d)", out, s.tok, s.off)
 }
 
-func (s *Session) fireDisturbances(pend []*request) {
+func (s *Session) fireDisturbances(pend []*request) (fired bool) {
 	for i, d := range s.Spec.Plan.Disturb {
 		if s.distDone[i] {
 			continue
@@ -1179,6 +1189,7 @@ func (s *Session) fireDisturbances(pend []*request) {
 			continue
 		}
 		s.distDone[i] = true
+		fired = true
 		s.dirty = true
 		s.count("disturb:" + d.Kind + "@" + d.Site)
 		s.th.add("disturb", d.Kind, d.Site)
@@ -1215,6 +1226,7 @@ func (s *Session) fireDisturbances(pend []*request) {
 			s.startTask("app", func() { s.Sh.PrintTransientf("transient message %d", n) })
 		}
 	}
+	return fired
 }
 
 func (s *Session) snapshot(kind string) Snap {
